@@ -583,3 +583,157 @@ Proof.
   destruct (decode b) as [fr| |] eqn:E; [exfalso; eapply D; eauto| |];
     (split; [reflexivity|]; apply K; reflexivity).
 Qed.
+
+(* ---------------------------------------------------------------- C06: abort, bystanders *)
+
+Lemma upd_nth_other {A} (l : list A) i j x : i <> j -> nth_error (upd_nth l i x) j = nth_error l j.
+Proof.
+  revert i j. induction l as [|y l IH]; intros [|i] [|j] H; cbn; auto; try congruence.
+Qed.
+Lemma get_put_other e oid x oid' : oid' <> oid -> get_stream (put_stream e oid x) oid' = get_stream e oid'.
+Proof.
+  intros H. unfold get_stream, put_stream, nth_opt, upd. cbn [e_streams set_streams].
+  apply upd_nth_other. intros E. apply H. apply N2Nat.inj. congruence.
+Qed.
+
+(* "only the stream object [o] may differ" *)
+Definition same_streams_but (o : N) (e e' : ep) : Prop :=
+  forall oid', oid' <> o -> get_stream e' oid' = get_stream e oid'.
+
+Lemma ssb_refl o e : same_streams_but o e e.
+Proof. intros x _. reflexivity. Qed.
+Lemma ssb_trans o e1 e2 e3 : same_streams_but o e1 e2 -> same_streams_but o e2 e3 -> same_streams_but o e1 e3.
+Proof. intros A B x H. rewrite (B x H). apply A, H. Qed.
+
+Lemma wake_writer_ssb f oid : same_streams_but oid (f_ep f) (f_ep (wake_writer f oid)).
+Proof.
+  unfold wake_writer. destruct (get_stream (f_ep f) oid) as [s|]; [|apply ssb_refl].
+  destruct (st_wpark s); [|apply ssb_refl].
+  intros x H. destruct (sid_of _ oid); cbn [f_ep with_ep wake]; now apply get_put_other.
+Qed.
+Lemma wake_reader_ssb f oid : same_streams_but oid (f_ep f) (f_ep (wake_reader f oid)).
+Proof.
+  unfold wake_reader. destruct (get_stream (f_ep f) oid) as [s|]; [|apply ssb_refl].
+  destruct (st_rpark s); [|apply ssb_refl].
+  intros x H. destruct (sid_of _ oid); cbn [f_ep with_ep wake]; now apply get_put_other.
+Qed.
+Lemma disallow_write_ssb f oid : same_streams_but oid (f_ep f) (f_ep (fst (disallow_write f oid))).
+Proof.
+  unfold disallow_write. destruct (get_stream (f_ep f) oid) as [s|]; [|apply ssb_refl]. cbn [fst].
+  eapply ssb_trans; [|apply wake_writer_ssb]. intros x H. cbn [f_ep with_ep]. now apply get_put_other.
+Qed.
+Lemma disallow_read_ssb f oid : same_streams_but oid (f_ep f) (f_ep (disallow_read f oid)).
+Proof.
+  unfold disallow_read. destruct (get_stream (f_ep f) oid) as [s|]; [|apply ssb_refl].
+  destruct (st_txopen s); [|apply ssb_refl].
+  eapply ssb_trans; [|apply wake_reader_ssb]. intros x H. cbn [f_ep with_ep]. now apply get_put_other.
+Qed.
+Lemma resolve_open_streams f k v : e_streams (f_ep (resolve_open f k v)) = e_streams (f_ep f).
+Proof.
+  unfold resolve_open. destruct (nth_opt _ k) as [o|]; [|reflexivity].
+  destruct (op_rx_dropped o); [reflexivity|]. destruct (op_park o); reflexivity.
+Qed.
+Lemma resolve_bind_streams f k v : e_streams (f_ep (resolve_bind f k v)) = e_streams (f_ep f).
+Proof.
+  unfold resolve_bind. destruct (nth_opt _ k) as [o|]; [|reflexivity].
+  destruct (bp_rx_dropped o); [reflexivity|]. destruct (bp_park o); reflexivity.
+Qed.
+Lemma ssb_of_eq o e e' : e_streams e' = e_streams e -> same_streams_but o e e'.
+Proof. intros E x _. unfold get_stream. now rewrite E. Qed.
+
+Lemma close_flow_local_ssb f oid id inh :
+  same_streams_but oid (f_ep f) (f_ep (close_flow_local f (SEstablished oid) id inh)).
+Proof.
+  cbn [close_flow_local]. destruct (disallow_write f oid) as [g old] eqn:E.
+  assert (A : same_streams_but oid (f_ep f) (f_ep g)).
+  { replace g with (fst (disallow_write f oid)) by (now rewrite E). apply disallow_write_ssb. }
+  eapply ssb_trans; [exact A|].
+  set (g2 := if negb old && negb inh then emit g (Reset id) else g).
+  assert (B : f_ep g2 = f_ep g) by (unfold g2; destruct (negb old && negb inh); [apply emit_ep|reflexivity]).
+  rewrite <- B. apply disallow_read_ssb.
+Qed.
+
+(* closing flow i (by a Reset from the peer, a local drop, an overrun) touches at most the
+   stream object of flow i *)
+Theorem close_flow_bystanders f id inh oid' :
+  slot_get (e_slots (f_ep f)) id <> Some (SEstablished oid') ->
+  get_stream (f_ep (close_flow f id inh)) oid' = get_stream (f_ep f) oid'.
+Proof.
+  intros H. unfold close_flow. destruct (slot_get (e_slots (f_ep f)) id) as [[k|oid|k]|] eqn:E; [| | |reflexivity].
+  - cbn [close_flow_local]. unfold get_stream. now rewrite resolve_open_streams.
+  - assert (N : oid' <> oid) by congruence.
+    rewrite (close_flow_local_ssb _ oid id inh oid' N). reflexivity.
+  - cbn [close_flow_local]. unfold get_stream. now rewrite resolve_bind_streams.
+Qed.
+
+(* a peer's Reset (or a local drop): the id is released, the stream's writer fails from now
+   on, its reader gets what was delivered and then end-of-stream *)
+Theorem reset_releases f id oid s wd :
+  slot_get (e_slots (f_ep f)) id = Some (SEstablished oid) -> get_stream (f_ep f) oid = Some s ->
+  let f' := fst (process_frame f (Reset id) wd) in
+  slot_get (e_slots (f_ep f')) id = None /\ f_out f' = f_out f /\
+  exists s', get_stream (f_ep f') oid = Some s' /\ st_fin s' = true /\ st_txopen s' = false /\
+             st_rxq s' = st_rxq s /\ st_buf s' = st_buf s.
+Proof.
+  intros G S. cbn [process_frame fst]. unfold close_flow. rewrite G.
+  set (g := with_ep f (set_slots (f_ep f) (slot_del (e_slots (f_ep f)) id))).
+  destruct (close_flow_local_inhibit_ctl g (SEstablished oid) id) as (A & B & _).
+  split; [rewrite B; unfold g; cbn [f_ep with_ep e_slots set_slots]; apply slot_get_del_same|].
+  split; [rewrite A; reflexivity|].
+  apply close_local_stream. exact S.
+Qed.
+
+Theorem drop_releases f sid oid s :
+  nth_opt (e_handles (f_ep f)) sid = Some oid -> get_stream (f_ep f) oid = Some s -> st_alive s = true ->
+  e_phase (f_ep f) = Running -> e_tx_closed (f_ep f) = false ->
+  slot_get (e_slots (f_ep f)) (st_id s) = Some (SEstablished oid) ->
+  let '(f', r) := do_drop_stream f sid in
+  r = [0] /\ slot_get (e_slots (f_ep f')) (st_id s) = None /\
+  f_out f' = f_out f ++ (if st_fin s then [] else [MBin (encode (Reset (st_id s)))]).
+Proof.
+  intros H G A P T SL. unfold do_drop_stream, live_stream. rewrite H, G, A.
+  set (s1 := st_set_rpark (st_set_alive s false) false).
+  set (g := with_ep f (put_stream (f_ep f) oid s1)).
+  unfold task_dropped. assert (Pg : e_phase (f_ep g) = Running) by exact P. rewrite Pg.
+  split; [reflexivity|]. split.
+  - assert (K : forall id', slot_get (e_slots (f_ep (close_flow g (st_id s) false))) id' =
+                        if id' =? st_id s then None else slot_get (e_slots (f_ep g)) id').
+    { intros id'. destruct (N.eqb_spec id' (st_id s)) as [->|Hn]; [|now apply close_flow_other].
+      unfold close_flow. assert (SLg : slot_get (e_slots (f_ep g)) (st_id s) = Some (SEstablished oid)) by exact SL.
+      rewrite SLg.
+      set (g1 := with_ep g (set_slots (f_ep g) (slot_del (e_slots (f_ep g)) (st_id s)))).
+      assert (S1 : e_slots (f_ep (close_flow_local g1 (SEstablished oid) (st_id s) false)) = e_slots (f_ep g1)).
+      { cbn [close_flow_local]. destruct (disallow_write g1 oid) as [h old] eqn:E1.
+        assert (H1 : same_ctl g1 h) by (replace h with (fst (disallow_write g1 oid)) by (now rewrite E1); apply disallow_write_ctl).
+        destruct H1 as (_ & B1 & _).
+        set (h2 := if negb old && negb false then emit h (Reset (st_id s)) else h).
+        assert (B2 : e_slots (f_ep h2) = e_slots (f_ep h)) by (unfold h2; destruct (negb old && negb false); [apply emit_slots|reflexivity]).
+        destruct (disallow_read_ctl h2 oid) as (_ & B3 & _). congruence. }
+      rewrite S1. unfold g1. cbn [f_ep with_ep e_slots set_slots]. apply slot_get_del_same. }
+    rewrite K, N.eqb_refl. reflexivity.
+  - unfold close_flow. assert (SLg : slot_get (e_slots (f_ep g)) (st_id s) = Some (SEstablished oid)) by exact SL.
+    rewrite SLg. cbn [close_flow_local].
+    set (g1 := with_ep g (set_slots (f_ep g) (slot_del (e_slots (f_ep g)) (st_id s)))).
+    assert (Gg : get_stream (f_ep g1) oid = Some s1).
+    { unfold g1, g. cbn [f_ep with_ep]. unfold get_stream, put_stream, nth_opt, upd in *. cbn [e_streams set_streams set_slots].
+      revert G. generalize (N.to_nat oid) (e_streams (f_ep f)). intros n. induction n; intros [|y l] E; cbn in *; try discriminate; auto. }
+    unfold disallow_write. rewrite Gg.
+    set (h0 := with_ep g1 (put_stream (f_ep g1) oid (st_set_fin s1 true))).
+    destruct (wake_writer_ctl h0 oid) as (O1 & _).
+    assert (Tw : e_tx_closed (f_ep (wake_writer h0 oid)) = false).
+    { unfold wake_writer. destruct (get_stream (f_ep h0) oid) as [x|]; [|exact T].
+      destruct (st_wpark x); [|exact T]. destruct (sid_of _ oid); exact T. }
+    assert (Fs : st_fin s1 = st_fin s) by reflexivity. rewrite Fs.
+    destruct (st_fin s); cbn [negb andb].
+    + destruct (disallow_read_ctl (wake_writer h0 oid) oid) as (O2 & _). rewrite O2, O1, app_nil_r. reflexivity.
+    + destruct (emit_out _ (Reset (st_id s)) Tw) as [_ Eo].
+      destruct (disallow_read_ctl (emit (wake_writer h0 oid) (Reset (st_id s))) oid) as (O2 & _).
+      rewrite O2, Eo, O1. reflexivity.
+Qed.
+
+(* a stream created for a (re)used id starts clean: nothing of an older incarnation *)
+Theorem new_stream_clean e id w h p :
+  let s := new_stream e id w h p in
+  st_rxq s = [] /\ st_buf s = [] /\ st_since s = 0 /\ st_credit s = w /\ st_fin s = false /\
+  st_txopen s = true /\ st_alive s = true /\ st_th s <= e_rwnd e.
+Proof. cbn. repeat split; auto. lia. Qed.
